@@ -47,7 +47,7 @@ def subsumes(s, d):
 
 def has_dups(d):
     from vf.checks.c06 import has_duplicates, has_py_duplicates
-    return has_duplicates(d) or has_py_duplicates(d)
+    return has_duplicates(d) or has_py_duplicates(d) or has_py_duplicates(d, unordered=True)
 
 
 def check_program(env, prog, label, ndata, std):
